@@ -384,12 +384,13 @@ package netty
 //@   ensures result != nil
 
 // C03: an exception forwarded past the last handler closes the channel with that exception
+//@ property C03 C07
 //@ func (tailHandler).HandleException
 //@   requires ctx != nil
 //@   ensures closes: nemitted() == 1 && evis(0, "Channel.Close") && evarg(0, 0) == ex
 
 // C03/C14/C09: the head of the pipeline maps one outbound message to low-level channel writes by type
-//@ property C03 C14 C09
+//@ property C03 C04 C08 C09 C14
 //@ spec func isBytes(m Message) bool = is(m, []byte)
 //@ spec func isVec(m Message) bool = is(m, [][]byte)
 //@ spec func isBuf(m Message) bool = is(m, *bytes.Buffer)
@@ -549,6 +550,7 @@ package netty
 //@   ensures elected_by_cas: evis(0, "cas c.closed") && evarg(0, 0) == 0 && evarg(0, 1) == 1 && count("cas c.closed") >= 1
 //@   ensures loser_does_nothing: implies(!evres(0, 0), nemitted() == 1)
 //@   ensures closed_on_return: c.closed == 1
+//@   ensures never_waits_for_the_write_lock: count("lock c.writeLock") == 0
 //@   ensures winner_closes_once: implies(evres(0, 0), count("net.Conn.Close") == 1 && count("context.CancelFunc") == 1 && count("Pipeline.FireChannelInactive") == 1 && count("cas c.closed") == 1)
 //@   ensures winner_order: implies(evres(0, 0), first("net.Conn.Close") < first("context.CancelFunc") && first("context.CancelFunc") < first("Pipeline.FireChannelInactive") && evrecv(first("net.Conn.Close")) == old(c.transport) && evarg(first("context.CancelFunc"), 0) == old(c.cancel) && evrecv(first("Pipeline.FireChannelInactive")) == old(c.pipeline))
 //@   ensures inactive_carries_the_winning_error: implies(evres(0, 0), evarg(first("Pipeline.FireChannelInactive"), 0) == err)
@@ -698,7 +700,7 @@ package netty
 //@   modifies all
 //@   preserves handlerContext.*, pipeline.*, ghost node, ghost pos, channel.ctx, channel.cancel, channel.transport, channel.executor, channel.pipeline, channel.writeQueue, channel.untilWrite, channel.writeBuffers, channel.recycleBuffers, channel.id, channel.closed
 
-//@ property C05 C13 C18 C01
+//@ property C01 C02 C05 C06 C10 C13 C18
 //@ func newChannelWith
 //@   requires ctx != nil && writeQueueSize <= 1<<40
 //@   ensures is(result, *channel) && fresh(as(result, *channel)) && as(result, *channel) != nil
@@ -732,7 +734,7 @@ package netty
 
 // ReadFrom streams a reader in 1024-byte chunks, each handed to write1 exactly once, in order (C14).
 // (Each chunk is a separate low-level write: that is the known C09 finding for reader-typed messages.)
-//@ property C14 C09 C10 C11 C12
+//@ property C04 C08 C09 C10 C11 C12 C14
 //@ func (*channel).ReadFrom
 //@   requires chinv(c) && implies(c.writeQueue != nil, cap(c.writeQueue) >= 1) && r != nil && rwf(r)
 //@   ensures closed_rejects@C11: implies(old(closedState(c)), err != nil && n == 0 && count("netty.channel.write1") == 0 && count("io.Reader.Read") == 0)
